@@ -31,6 +31,8 @@ def check(prog, rep, tier):
                       'ROUTE-REFRESH HBB, KEEPALIVE empty body (length 19) enforced')
     rep.rule('R14.c', 'capability tables: class constants equal the IANA codes; every capability code the OPEN '
                       'encoder emits has an encoder branch and a decoder branch; unknown codes are kept')
+    rep.rule('R14.d', 'field boundaries: no comparison in the OPEN / NOTIFICATION / KEEPALIVE / ROUTE-REFRESH codecs '
+                      'splits a range between 2**k - 2 and 2**k - 1 (AS 65535 is a 2-octet AS)')
     rep.assumptions += ['value equality of the round trip is not decided; AS_TRANS handling is C05 R05.b']
 
     # ---------------------------------------------------------------- R14.a
@@ -240,6 +242,8 @@ def check(prog, rep, tier):
         rep.bad('R14.c', key, file=f2.file, line=line, func=f2.qualname,
                 found='capa_dict[%s] is (re)created for every capability TLV of that code: with one TLV per '
                       'AFI/SAFI only the last one survives' % k, expected='accumulate', key=key)
+    common.report_boundary_splits(prog, rep, 'R14.d', lambda fn: fn.module.name in (
+        'yabgp.message.open', 'yabgp.message.notification', 'yabgp.message.keepalive', 'yabgp.message.route_refresh'))
     # the capability dispatch is total over the codes 0..255 (finite partition)
     cap_dispatch_total(prog, rep, ocls)
     # unknown-code fallback in Open.parse
